@@ -17,6 +17,7 @@ import (
 	"unicode"
 
 	"github.com/tsawler/tabula"
+	"github.com/tsawler/tabula/reader"
 	"pgregory.net/rapid"
 
 	"verif/harness/gen/frag"
@@ -121,6 +122,29 @@ func checkAPI(c APICase) error {
 	} {
 		t, e := one(m.ext().Text())
 		if e := judge(m.name, t, e); e != nil {
+			return e
+		}
+	}
+	// the reader level: reader.ExtractText assembles the page's text itself (text.Extractor.GetText)
+	if rd, rerr := reader.Open(path); rerr != nil {
+		return fmt.Errorf("reader.Open: %v", rerr)
+	} else {
+		n, perr := rd.PageCount()
+		var all []string
+		for i := 0; i < n && perr == nil; i++ {
+			pg, err := rd.GetPage(i)
+			if err != nil {
+				perr = err
+				break
+			}
+			s, err := rd.ExtractText(pg)
+			if err != nil {
+				perr = err
+			}
+			all = append(all, s)
+		}
+		rd.Close()
+		if e := judge("reader.ExtractText", all, perr); e != nil {
 			return e
 		}
 	}
